@@ -7,6 +7,7 @@ pub mod c04;
 pub mod c05;
 pub mod c06;
 pub mod c07;
+pub mod c08;
 pub mod c17;
 
 pub fn dispatch(id: &str, opts: &mut Opts) -> i32 {
@@ -18,6 +19,7 @@ pub fn dispatch(id: &str, opts: &mut Opts) -> i32 {
         "C05" => run_prop(&c05::C05, opts),
         "C06" => run_prop(&c06::C06, opts),
         "C07" => run_prop(&c07::C07, opts),
+        "C08" => run_prop(&c08::C08, opts),
         "C13" => run_prop(&hostile::C13, opts),
         "C17" => run_prop(&c17::C17, opts),
         _ => {
